@@ -228,6 +228,12 @@ class BrokerClientHarness(object):
                 if self.dups < 1:
                     for x in self.pending_insts():
                         en.append(("dup:%d" % x.rid, (0, 1)))
+                    # the id of a cancelled request whose reply may still arrive (it was written and the broker
+                    # client keeps a tombstone for it) is just as much in flight
+                    for x in self.insts:
+                        t = self.bc.requests.get(x.rid) if x.cancelled and x.fired else None
+                        if t is not None and t.cancelled is not None and conn is not None and not conn.client_closing:
+                            en.append(("reuse:%d" % x.rid, (0, 1)))
             if "cancel" in ops:
                 for x in self.pending_insts():
                     if not x.cancelled:
@@ -270,6 +276,25 @@ class BrokerClientHarness(object):
             if not (inst.fired and isinstance(inst.result, Failure) and inst.result.check(ClientError)):
                 self.viol("C10", "close", "request-after-close-not-failed",
                           "makeRequest after close(): fired=%r result=%r" % (inst.fired, inst.result))
+
+    def _do_reuse(self, arg):
+        """Re-using the id of a cancelled request while its reply can still arrive would hand that reply to the
+        new request ("a response is never delivered to a different request"): it must be refused."""
+        from afkak.common import DuplicateRequestError
+        rid = int(arg)
+        self.dups += 1
+        before = self.fingerprint_sut()
+        try:
+            d = self.bc.makeRequest(rid, _req_bytes(rid, False))
+        except DuplicateRequestError:
+            if self.fingerprint_sut() != before:
+                self.viol("C06", "duplicate-id", "refused-duplicate-changed-state",
+                          "makeRequest(%d) raised DuplicateRequestError but changed the broker client's state" % rid)
+            return
+        d.addErrback(lambda f: None)
+        self.viol("C06", "duplicate-id", "cancelled-inflight-id-reused",
+                  "makeRequest(%d) accepted while the reply to a cancelled request with the same id can still "
+                  "arrive on the connection: that reply would complete the new request" % rid)
 
     def _do_dup(self, arg):
         """Re-using the id of a pending request must be refused and change nothing."""
